@@ -113,18 +113,22 @@ def transitions_case(rng):
 def grammar_case(rng):
     F, ts, text, opts, srcarg = make_source(rng)
     gtype = rng.choice(["treebank", "leftright", "optimal"])
-    dest = "rcg"
+    dest = rng.choice(["rcg", "rcg", "pmcfg"])
+    lig = rng.random() < 0.25
+    import os
     with cli.Scratch() as sc:
         src = sc.write("src." + F, text)
-        rc, _, err = cli.run_cli(["grammar", src, sc.path("g"), gtype, "--dest-format", dest] + src_argv(F, opts))
+        rc, _, err = cli.run_cli(["grammar", src, sc.path("g"), gtype, "--dest-format", dest] + src_argv(F, opts)
+                                 + (["--dest-opts", "lex_in_grammar"] if lig else []))
         if rc != 0:
             got = cli_error(err)
         else:
-            got = gram.enc_lines(gram.file_lines(sc.path("g." + dest))) + " # " + gram.enc_lines(gram.file_lines(sc.path("g.lex")))
-    lines = [Line("corr", "grammar_src", [F, proto.enc_opts(opts), gtype, "-", dest, "f", srcarg], got,
-                  canon=gram.canon_line_files(lexfiles=(1,)))]
-    return Case("cli-src:%s:%s" % (F, gtype), {"src_format": F, "src_opts": opts, "text": text, "dest": dest, "err": err[-300:] if rc else ""},
-                lines, nontrivial=True)
+            lex = gram.enc_lines(gram.file_lines(sc.path("g.lex"))) if os.path.exists(sc.path("g.lex")) else "none"
+            got = gram.enc_lines(gram.file_lines(sc.path("g." + dest))) + " # " + lex
+    lines = [Line("corr", "grammar_src", [F, proto.enc_opts(opts), gtype, "-", dest, "t" if lig else "f", srcarg], got,
+                  canon=("canon_pmcfg" if dest == "pmcfg" else gram.canon_line_files(lexfiles=(1,))))]
+    return Case("cli-src:%s:%s:%s" % (F, gtype, dest), {"src_format": F, "src_opts": opts, "text": text, "dest": dest, "lex_in_grammar": lig,
+                                                        "err": err[-300:] if rc else ""}, lines, nontrivial=True)
 
 
 def spell_words(rng, opts):
